@@ -1,6 +1,6 @@
 (* C17 — retransmission detection window
    Statements copied from the proof files; each is closed by `exact`. *)
-From DV Require Prelude.Base Model.Ids Proofs.IdsP Model.Node Proofs.NodeB.
+From DV Require Prelude.Base Model.Ids Proofs.IdsP Model.Node Proofs.NodeA Proofs.NodeB Proofs.NodeC Proofs.NodeD Proofs.NodeG.
 From Coq Require String List Lia Bool Arith ZArith.
 
 Module FromNodeB.
@@ -64,9 +64,88 @@ Theorem C17_record n hbh e2e :
 Proof. exact (@NodeB.C17_record n hbh e2e). Qed.
 End FromNodeB.
 
+Module FromNodeG.
+Import DV.Prelude.Base DV.Model.Node DV.Proofs.NodeB DV.Proofs.NodeC DV.Proofs.NodeD DV.Proofs.NodeG.
+Import Coq.Strings.String.
+
+(* C17: from empty tables, the pending table of the ghost is n_origin_waiting and every origin's window is the last g_rsize answers attributed to it *)
+Theorem C17_history_window_gen n0 evs :
+  n_origin_waiting n0 = [] -> n_sent_answers n0 = [] ->
+  pending n0 evs = n_origin_waiting (fst (run n0 evs))
+  /\ forall o, sa_get (n_sent_answers (fst (run n0 evs))) o = lastn (g_rsize (n_cfg n0)) (answered n0 evs o).
+Proof. exact (@NodeG.C17_history_window_gen n0 evs). Qed.
+
+(* C17: in every run from a well-formed initial node, the window the node holds for an origin host is the last g_rsize end-to-end identifiers of the answers queued for received requests of that origin *)
+Theorem C17_history_window n0 evs o :
+  wf_init n0 ->
+  sa_get (n_sent_answers (fst (run n0 evs))) o = lastn (g_rsize (n_cfg n0)) (answered n0 evs o).
+Proof. exact (@NodeG.C17_history_window n0 evs o). Qed.
+
+(* C17: the requests the ghost holds as received and not yet answered are exactly the node's n_origin_waiting *)
+Theorem C17_history_pending n0 evs :
+  wf_init n0 -> pending n0 evs = n_origin_waiting (fst (run n0 evs)).
+Proof. exact (@NodeG.C17_history_pending n0 evs). Qed.
+
+(* C17: a T-flagged, well-formed request read from a ready connection whose end-to-end identifier is among the last g_rsize answers attributed to its origin host is answered 5012 on its connection and delivered to no application; everything else in the step is the I/O thread's own output *)
+Theorem C17_history_duplicate_rejected n0 evs ds cid c0 c m o :
+  wf_init n0 ->
+  let n := fst (run n0 evs) in
+  let rs := read_state n ds cid in
+  get_conn n cid = Some c0 -> get_conn rs cid = Some c -> is_ready_state (c_state c) = true ->
+  m_req m = true -> m_t m = true -> m_origin m = Present o ->
+  g_validate (n_cfg n0) = false \/ m_missing m = [] ->
+  List.In (m_e2e m) (lastn (g_rsize (n_cfg n0)) (answered n0 evs o)) ->
+  exists pre post,
+    snd (step n ds (ERecv cid [m])) = (pre ++ [OQueue cid (answer_of m (Some RC_UNABLE) [])] ++ post)%list
+    /\ List.Forall (sysout (pmap n)) pre /\ List.Forall (sysout (pmap n)) post
+    /\ forall i m', ~ List.In (ODeliver i m') (snd (step n ds (ERecv cid [m]))).
+Proof. exact (@NodeG.C17_history_duplicate_rejected n0 evs ds cid c0 c m o). Qed.
+
+(* C17: an application request read from a ready connection that does not carry the T flag, or whose end-to-end identifier is not among the last g_rsize answers attributed to its origin host, is never rejected as a duplicate: the routing function decides as it does for the same request without the flag, and the step outputs exactly what that decision prescribes (C08) *)
+Theorem C17_history_no_false_duplicate n0 evs ds cid c0 c m o k :
+  wf_init n0 ->
+  let n := fst (run n0 evs) in
+  let rs := read_state n ds cid in
+  get_conn n cid = Some c0 -> get_conn rs cid = Some c -> is_ready_state (c_state c) = true ->
+  m_req m = true -> m_cmd m = App k -> m_origin m = Present o ->
+  m_t m = false \/ ~ List.In (m_e2e m) (lastn (g_rsize (n_cfg n0)) (answered n0 evs o)) ->
+  spec_route rs c m = spec_route rs c (clear_t m)
+  /\ exists pre post,
+       snd (step n ds (ERecv cid [m])) = (pre ++ route_outputs cid m (spec_route rs c (clear_t m)) ++ post)%list
+       /\ List.Forall (sysout (pmap n)) pre /\ List.Forall (sysout (pmap n)) post.
+Proof. exact (@NodeG.C17_history_no_false_duplicate n0 evs ds cid c0 c m o k). Qed.
+
+(* C17: for every kind of request (base protocol included) read from a ready connection: when it is well-formed and not a duplicate in the above sense, the T flag changes nothing: same next state, same outputs up to the flag of the message handed on *)
+Theorem C17_history_flag_irrelevant n0 evs ds cid c0 c m o :
+  wf_init n0 ->
+  let n := fst (run n0 evs) in
+  let rs := read_state n ds cid in
+  get_conn n cid = Some c0 -> get_conn rs cid = Some c -> is_ready_state (c_state c) = true ->
+  m_req m = true -> m_origin m = Present o ->
+  g_validate (n_cfg n0) = false \/ m_missing m = [] ->
+  m_t m = false \/ ~ List.In (m_e2e m) (lastn (g_rsize (n_cfg n0)) (answered n0 evs o)) ->
+  step n ds (ERecv cid [clear_t m])
+  = (fst (step n ds (ERecv cid [m])), List.map out_clear_t (snd (step n ds (ERecv cid [m])))).
+Proof. exact (@NodeG.C17_history_flag_irrelevant n0 evs ds cid c0 c m o). Qed.
+
+(* C17: every end-to-end identifier in an origin's history is that of an answer the node queued in some step of the trace *)
+Theorem answered_from_trace n0 evs o e :
+  List.In e (answered n0 evs o) ->
+  exists ev outs cid a, List.In (ev, outs) (trace n0 evs) /\ List.In (OQueue cid a) outs
+                        /\ o_req a = false /\ o_e2e a = e.
+Proof. exact (@NodeG.answered_from_trace n0 evs o e). Qed.
+End FromNodeG.
+
 Print Assumptions FromNodeB.bounded_append_spec.
 Print Assumptions FromNodeB.C17_window.
 Print Assumptions FromNodeB.C17_sa_mem_get.
 Print Assumptions FromNodeB.C17_sa_nodup.
 Print Assumptions FromNodeB.C17_dup_iff.
 Print Assumptions FromNodeB.C17_record.
+Print Assumptions FromNodeG.C17_history_window_gen.
+Print Assumptions FromNodeG.C17_history_window.
+Print Assumptions FromNodeG.C17_history_pending.
+Print Assumptions FromNodeG.C17_history_duplicate_rejected.
+Print Assumptions FromNodeG.C17_history_no_false_duplicate.
+Print Assumptions FromNodeG.C17_history_flag_irrelevant.
+Print Assumptions FromNodeG.answered_from_trace.
